@@ -17,7 +17,7 @@ NCASES = {'quick': 1200, 'thorough': 8000}
 RULE = ('cases: server profile (host-key list, kex list incl. GEX algorithms and moduli policy; a fifth of them listing one name up to 13 times), admission policy {always, throttle/silent/close/refuse/blackhole from connection k}, '
         'rate test on/off, RTT in {0.04 ms .. 200 ms}, clock {fine, 10 ms quanta, forward jump, backward jump}, optional probe-phase fault. non-trivial: >= 2 connections were opened; distinct by '
         '(behaviour class, admission policy, RTT regime, rate test on/off, number of probe types).')
-ASSUMPTIONS = ['bound: 1 (+1 SSH-1 fallback) + one per advertised probe-able host-key type (RSA family once) + 9 per advertised GEX algorithm (+ up to 1 per host-key type again is NOT allowed) '
+ASSUMPTIONS = ['bound: 1 (+1 SSH-1 fallback) + one per advertised probe-able host-key type (RSA family once when no fault or admission policy disturbs the probes, else once per advertised member) + 9 per advertised GEX algorithm (+ up to 1 per host-key type again is NOT allowed) '
                '+ 38 for the rate test (at most 3 at once) when it runs', 'sockets still referenced only by in-flight simulator events are finalised before counting']
 
 PROBE_TYPES = ['ssh-rsa-cert-v01@openssh.com', 'rsa-sha2-256-cert-v01@openssh.com', 'rsa-sha2-512-cert-v01@openssh.com', 'ssh-ed25519', 'ssh-ed25519-cert-v01@openssh.com',
@@ -119,7 +119,11 @@ def run_case(case, ctx):
     ssh1 = not p.get('ssh2', True)
     keylist = [wire.shown(x) for x in p.get('key', [])]
     kexlist = [wire.shown(x) for x in p.get('kex', [])]
-    ntypes = len([t for t in PROBE_TYPES if t in keylist]) + (1 if any(a in keylist for a in gen.RSA_FAMILY) else 0)
+    # one connection per probed host-key type; the three RSA names share one key, so a cooperative server is asked once for the family,
+    # but when that probe fails the next advertised member is a host-key type of its own and is tried as well
+    fam = len(set(a for a in keylist if a in gen.RSA_FAMILY))
+    undisturbed = not case.get('faults') and case['adm'] == 'always'
+    ntypes = len([t for t in PROBE_TYPES if t in keylist]) + (min(fam, 1) if undisturbed else fam)
     ngex = len([a for a in gen.GEX if a in kexlist])
     rate_possible = (not case['skip']) and not ssh1
     base_bound = 1 + (1 if ssh1 else 0) + ntypes + 9 * ngex
